@@ -54,6 +54,7 @@ class Ctx(object):
         self.work = os.path.join(VERIF, '.work', '%s-%d' % (prop, os.getpid()))
         os.makedirs(self.work, exist_ok=True)
         self.replay_dir = os.path.join(VERIF, 'replays', prop)
+        shutil.rmtree(self.replay_dir, ignore_errors=True)     # replay files always belong to the latest run
         self.states = 0
         self.transitions = 0
         self.tlc_runs = []
